@@ -1126,6 +1126,408 @@ func concurrentSmoke(r *hx.Run) {
 
 // endregion ///////////////////////////////////////////////////////////////////////////////////////
 
+// region reader snapshots (thread-safe flavour) ///////////////////////////////////////////////////////
+
+var readerKinds = []string{"Range", "ForEach", "Values", "RangeReverse", "ForEachReverse"}
+
+func isReverse(kind string) bool { return strings.HasSuffix(kind, "Reverse") }
+
+// readOnce makes one reader call. The callback dawdles (yields, short sleeps) so that writers queue on the
+// mutex while the traversal is under way, and stops collecting at the step bound; park, if non-nil, is called
+// once at element parkAt (forced schedules).
+func readOnce(l ds.List[int], kind string, bound int, parkAt int, park func()) (got []int, cyc bool) {
+	n := 0
+	cb := func(v int) bool {
+		if len(got) >= bound {
+			cyc = true
+
+			return false
+		}
+		got = append(got, v)
+		n++
+		if park != nil && n == parkAt {
+			park()
+		}
+		if n%37 == 0 {
+			runtime.Gosched()
+		}
+		if n%211 == 0 {
+			time.Sleep(20 * time.Microsecond)
+		}
+
+		return true
+	}
+	each := func(v int) error {
+		if !cb(v) {
+			return errBound
+		}
+
+		return nil
+	}
+	switch kind {
+	case "Range":
+		l.Range(func(v int) { cb(v) })
+	case "RangeReverse":
+		l.RangeReverse(func(v int) { cb(v) })
+	case "ForEach":
+		_ = l.ForEach(each)
+	case "ForEachReverse":
+		_ = l.ForEachReverse(each)
+	case "Values":
+		got = l.Values()
+	}
+
+	return got, cyc
+}
+
+type readRec struct {
+	kind   string
+	vs, ve int // writer version before / after the call
+	got    []int
+	cyc    bool
+}
+
+func sameInts(a, b []int, reversed bool) bool {
+	if len(a) != len(b) {
+		return false
+	}
+	for i := range a {
+		j := i
+		if reversed {
+			j = len(b) - 1 - i
+		}
+		if a[i] != b[j] {
+			return false
+		}
+	}
+
+	return true
+}
+
+// describe says how a delivered sequence differs from a state (duplicates, missing, extra).
+func describe(got, state []int) string {
+	seen, in := map[int]int{}, map[int]bool{}
+	for _, v := range got {
+		seen[v]++
+	}
+	for _, v := range state {
+		in[v] = true
+	}
+	dup, missing, extra := 0, 0, 0
+	for v, c := range seen {
+		if c > 1 {
+			dup++
+		}
+		if !in[v] {
+			extra++
+		}
+	}
+	for _, v := range state {
+		if seen[v] == 0 {
+			missing++
+		}
+	}
+
+	return fmt.Sprintf("delivered %d values (list had %d at the start of the call): %d delivered twice, %d missing, %d not in that state",
+		len(got), len(state), dup, missing, extra)
+}
+
+// snapshotRound: a long list, writers (serialised by the harness so that the sequence of list states is known)
+// doing moves / removes / pushes, readers calling Range / ForEach / Values / reverse variants. What one reader
+// call delivers must be exactly one of the states the list went through between the start and the end of that call.
+func snapshotRound(r *hx.Run, rng *hx.Rng, n, readers, readsEach, writers, writesEach int) bool {
+	const mode = "snapshot-stress"
+	l := ds.NewList[int]()
+	elems := map[int]ds.ListElement[int]{}
+	var cur []int
+	for v := 1; v <= n; v++ {
+		elems[v] = l.PushBack(v)
+		cur = append(cur, v)
+	}
+	states := [][]int{append([]int(nil), cur...)}
+	var version atomic.Int64
+	var hmu sync.Mutex
+	nextVal := n
+	bound := 4*(n+writers*writesEach) + 8
+	var recMu sync.Mutex
+	var recs []readRec
+	var panics atomic.Int64
+	var wg sync.WaitGroup
+	for wi := 0; wi < writers; wi++ {
+		g, _ := rng.Fork()
+		wg.Add(1)
+		go func() {
+			defer wg.Done()
+			for k := 0; k < writesEach; k++ {
+				if p := hx.Safely(func() {
+					hmu.Lock()
+					defer hmu.Unlock()
+					x := cur[g.Intn(len(cur))]
+					without := func() []int {
+						out := make([]int, 0, len(cur))
+						for _, v := range cur {
+							if v != x {
+								out = append(out, v)
+							}
+						}
+
+						return out
+					}
+					switch y := g.Intn(100); {
+					case y < 35:
+						l.MoveToFront(elems[x])
+						cur = append([]int{x}, without()...)
+					case y < 70:
+						l.MoveToBack(elems[x])
+						cur = append(without(), x)
+					case y < 80 && len(cur) > n/2:
+						l.Remove(elems[x])
+						cur = without()
+					case y < 90:
+						nextVal++
+						elems[nextVal] = l.PushFront(nextVal)
+						cur = append([]int{nextVal}, cur...)
+					default:
+						nextVal++
+						elems[nextVal] = l.PushBack(nextVal)
+						cur = append(append([]int(nil), cur...), nextVal)
+					}
+					states = append(states, append([]int(nil), cur...))
+					version.Add(1)
+				}); p != "" && panics.Add(1) <= 2 {
+					r.Fail("thread-safe-list-concurrent", mode+": a writer panicked: "+p,
+						map[string]string{"part": "concurrent", "mode": mode, "what": "panic"})
+				}
+				time.Sleep(time.Duration(g.Intn(60)) * time.Microsecond)
+			}
+		}()
+	}
+	for ri := 0; ri < readers; ri++ {
+		g, _ := rng.Fork()
+		wg.Add(1)
+		go func() {
+			defer wg.Done()
+			for k := 0; k < readsEach; k++ {
+				kind := hx.Pick(g, readerKinds)
+				rec := readRec{kind: kind, vs: int(version.Load())}
+				if p := hx.Safely(func() { rec.got, rec.cyc = readOnce(l, kind, bound, 0, nil) }); p != "" {
+					if panics.Add(1) <= 2 {
+						r.Fail("thread-safe-list-concurrent", mode+": "+kind+" panicked: "+p,
+							map[string]string{"part": "concurrent", "mode": mode, "what": "panic", "reader": kind})
+					}
+
+					continue
+				}
+				rec.ve = int(version.Load())
+				recMu.Lock()
+				recs = append(recs, rec)
+				recMu.Unlock()
+			}
+		}()
+	}
+	done := make(chan struct{})
+	go func() { wg.Wait(); close(done) }()
+	select {
+	case <-done:
+	case <-time.After(30 * time.Second):
+		r.Fail("thread-safe-list-concurrent", mode+": readers/writers still blocked after 30s (a reader or writer call did not return)",
+			map[string]string{"part": "concurrent", "mode": mode, "what": "deadlock"})
+
+		return false
+	}
+	bad := 0
+	for _, rec := range recs {
+		if rec.cyc {
+			r.Fail("thread-safe-list-concurrent", mode+": "+rec.kind+" did not end within the step bound",
+				map[string]string{"part": "concurrent", "mode": mode, "what": "ring", "reader": rec.kind})
+
+			continue
+		}
+		// the list operation of version ve+1 may already have happened when ve was read
+		ok := false
+		for k := rec.vs; k <= rec.ve+1 && k < len(states); k++ {
+			if sameInts(rec.got, states[k], isReverse(rec.kind)) {
+				ok = true
+
+				break
+			}
+		}
+		if !ok {
+			if bad++; bad <= 3 {
+				r.Fail("thread-safe-list-concurrent",
+					fmt.Sprintf("%s: one %s call is not a snapshot of any of the %d list states during the call; %s",
+						mode, rec.kind, rec.ve+1-rec.vs+1, describe(rec.got, states[rec.vs])),
+					map[string]string{"part": "concurrent", "mode": mode, "what": "snapshot", "reader": rec.kind})
+			}
+		}
+	}
+	r.CountN("conc:snapshot-reads", len(recs))
+	r.CountN("conc:snapshot-writes", len(states)-1)
+
+	return true
+}
+
+// forcedSnapshot: the reader is parked inside its callback at element 100 of 300 (holding the read lock), a
+// writer that moves a not-yet-visited element to the other end is started and queues on the mutex, the reader is
+// released: it must still deliver the list as it was.
+func forcedSnapshot(r *hx.Run, kind string) bool {
+	mode := "snapshot-forced:" + kind
+	const n = 300
+	l := ds.NewList[int]()
+	var state []int
+	var first, last ds.ListElement[int]
+	for v := 1; v <= n; v++ {
+		e := l.PushBack(v)
+		if v == 1 {
+			first = e
+		}
+		last = e
+		state = append(state, v)
+	}
+	parked, release := make(chan struct{}), make(chan struct{})
+	type res struct {
+		got []int
+		cyc bool
+		p   string
+	}
+	readerDone, writerDone := make(chan res, 1), make(chan string, 1)
+	go func() {
+		var x res
+		x.p = hx.Safely(func() {
+			x.got, x.cyc = readOnce(l, kind, 4*n+8, 100, func() { close(parked); <-release })
+		})
+		readerDone <- x
+	}()
+	select {
+	case <-parked:
+	case <-time.After(10 * time.Second):
+		r.Fail("thread-safe-list-concurrent", mode+": the reader never reached element 100",
+			map[string]string{"part": "concurrent", "mode": mode, "what": "deadlock", "reader": kind})
+
+		return false
+	}
+	go func() {
+		writerDone <- hx.Safely(func() {
+			if isReverse(kind) {
+				l.MoveToBack(first)
+			} else {
+				l.MoveToFront(last)
+			}
+		})
+	}()
+	time.Sleep(5 * time.Millisecond) // the writer is queued on the mutex (pending writer)
+	close(release)
+	var x res
+	select {
+	case x = <-readerDone:
+	case <-time.After(10 * time.Second):
+		r.Fail("thread-safe-list-concurrent", mode+": the reader call did not return within 10s",
+			map[string]string{"part": "concurrent", "mode": mode, "what": "deadlock", "reader": kind})
+
+		return false
+	}
+	select {
+	case p := <-writerDone:
+		if p != "" {
+			r.Fail("thread-safe-list-concurrent", mode+": the writer panicked: "+p,
+				map[string]string{"part": "concurrent", "mode": mode, "what": "panic", "reader": kind})
+		}
+	case <-time.After(10 * time.Second):
+		r.Fail("thread-safe-list-concurrent", mode+": the writer did not return within 10s",
+			map[string]string{"part": "concurrent", "mode": mode, "what": "deadlock", "reader": kind})
+
+		return false
+	}
+	if x.p != "" || x.cyc || !sameInts(x.got, state, isReverse(kind)) {
+		r.Fail("thread-safe-list-concurrent",
+			fmt.Sprintf("%s: with a writer queued behind the traversal, %s is not the list as it was (panic=%q cycle=%v); %s",
+				mode, kind, x.p, x.cyc, describe(x.got, state)),
+			map[string]string{"part": "concurrent", "mode": mode, "what": "snapshot", "reader": kind})
+	}
+
+	return true
+}
+
+// hammer: short list, readers calling Values()/Len()/Front()/Back() back to back while writers move elements
+// back to back: every call must return (a read lock taken twice inside one call deadlocks as soon as a writer
+// arrives in between).
+func hammer(r *hx.Run, d time.Duration) bool {
+	const mode = "hammer"
+	l := ds.NewList[int]()
+	var es []ds.ListElement[int]
+	for v := 1; v <= 4; v++ {
+		es = append(es, l.PushBack(v))
+	}
+	var stop atomic.Bool
+	var wg sync.WaitGroup
+	var calls atomic.Int64
+	for i := 0; i < 4; i++ {
+		wg.Add(2)
+		go func() {
+			defer wg.Done()
+			for !stop.Load() {
+				vs := l.Values()
+				if len(vs) != 4 || l.Len() != 4 || l.Front() == nil || l.Back() == nil {
+					r.Fail("thread-safe-list-concurrent", fmt.Sprintf("%s: Values()=%v Len()=%d on a list of 4 elements that are only moved", mode, vs, l.Len()),
+						map[string]string{"part": "concurrent", "mode": mode, "what": "snapshot", "reader": "Values"})
+
+					return
+				}
+				calls.Add(1)
+			}
+		}()
+		go func() {
+			defer wg.Done()
+			for k := i; !stop.Load(); k++ {
+				l.MoveToFront(es[k%4])
+				l.MoveAfter(es[(k+1)%4], es[(k+2)%4])
+			}
+		}()
+	}
+	time.Sleep(d)
+	stop.Store(true)
+	done := make(chan struct{})
+	go func() { wg.Wait(); close(done) }()
+	select {
+	case <-done:
+	case <-time.After(10 * time.Second):
+		r.Fail("thread-safe-list-concurrent", mode+": Values()/Len()/MoveToFront calls still blocked 10s after the stop signal",
+			map[string]string{"part": "concurrent", "mode": mode, "what": "deadlock", "reader": "Values"})
+
+		return false
+	}
+	r.CountN("conc:hammer-reader-calls", int(calls.Load()))
+
+	return true
+}
+
+func readerSnapshots(r *hx.Run) {
+	rounds, forced, hd := 6, 2, 400*time.Millisecond
+	if r.Scale > 1 {
+		rounds, forced, hd = 60, 10, 4*time.Second
+	}
+	for i := 0; i < forced; i++ {
+		for _, k := range []string{"Range", "ForEach", "RangeReverse", "ForEachReverse"} {
+			if !forcedSnapshot(r, k) {
+				return
+			}
+			r.Count("conc:snapshot-forced:" + k)
+		}
+	}
+	if !hammer(r, hd) {
+		return
+	}
+	for i := 0; i < rounds; i++ {
+		rng, _ := r.Rng.Fork()
+		if !snapshotRound(r, rng, []int{300, 600, 1000}[i%3], 4, 10, 3, 50) {
+			return
+		}
+	}
+	r.CountN("conc:snapshot-rounds", rounds)
+}
+
+// endregion ///////////////////////////////////////////////////////////////////////////////////////
+
 // lastResort turns a run-away harness (a leaked goroutine allocating without end, a hang nothing else caught)
 // into an oracle failure while the process can still write its results: GOMEMLIMIT is only a soft limit.
 func lastResort(r *hx.Run, trail *atomic.Value) {
@@ -1210,5 +1612,6 @@ func main() {
 	}
 	r.Extra["deadlocks"] = deadlocks
 	concurrentSmoke(r)
+	readerSnapshots(r)
 	r.Finish()
 }
